@@ -367,7 +367,7 @@ func partC(r *report.Run) {
 	for _, sh := range recShapes {
 		for _, fo := range recForms {
 			for p := 0; p <= 3; p++ {
-				if sh == "counter" && p > 0 {
+				if strings.HasSuffix(sh, "counter") && p > 0 {
 					continue
 				}
 				for l := 0; l <= 3; l++ {
